@@ -540,6 +540,34 @@ func c17call(rec *Record, op *c17op) {
 	}
 }
 
+// c17variant: the same edit (same keys, same shapes) with other scalar values, for the second
+// clone: two records that write the same values into shared memory would hide the sharing.
+func c17variant(d c17vd) c17vd {
+	switch d.kind {
+	case log.KindInt64:
+		d.i += 1000
+	case log.KindFloat64:
+		d.f += 1000
+	case log.KindString, log.KindBytes:
+		d.s = "V" + d.s
+	case log.KindSlice, log.KindMap:
+		items := make([]c17vd, len(d.items))
+		for i, it := range d.items {
+			items[i] = c17variant(it)
+		}
+		d.items = items
+	}
+	return d
+}
+
+func c17variantOp(op *c17op) *c17op {
+	v := &c17op{name: op.name + " with other values", set: op.set}
+	for _, a := range op.attrs {
+		v.attrs = append(v.attrs, c17attr{a.key, c17variant(a.v)})
+	}
+	return v
+}
+
 func c17where(op *c17op) string {
 	if op.set {
 		return "SetAttributes"
@@ -578,6 +606,10 @@ func (c *c17case) lastStep(rec *Record, op *c17op) bool {
 		c.rec = rec
 		c.fail("clone-differs|content at clone time", "Clone() of\n  %s\nholds\n  %s", pre, clPre)
 	}
+	var cl2 Record // a second clone of the same state: it gets the edit with other values, last
+	if !c.protect("Clone", func() { cl2 = rec.Clone() }) {
+		return false
+	}
 	if !c.step(rec, op.set, op.attrs, op) {
 		return false
 	}
@@ -594,6 +626,19 @@ func (c *c17case) lastStep(rec *Record, op *c17op) bool {
 		c.fail("clone-shares-state|edit of the clone visible in the original", "%s on the clone changed the original:\n  was %s\n  now %s", op.name, post, now)
 	} else if cs := c17snapshot(&cl); cs != post {
 		c.fail("clone-diverges|same edit gives a different record", "%s on the clone gives\n  %s\non the original\n  %s", op.name, cs, post)
+	}
+	// the second clone is edited with other values: neither the original nor the first clone may notice
+	clPost := c17snapshot(&cl)
+	vop := c17variantOp(op)
+	c.j.r.Eval()
+	if !c.protect(c17where(op), func() { c17call(&cl2, vop) }) {
+		return false
+	}
+	if now := c17snapshot(rec); now != post {
+		c.fail("clone-shares-state|edit of the clone visible in the original", "%s on a clone changed the original:\n  was %s\n  now %s", vop.name, post, now)
+	}
+	if now := c17snapshot(&cl); now != clPost {
+		c.fail("clone-shares-state|edit of one clone visible in another", "%s on a second clone changed the first:\n  was %s\n  now %s", vop.name, clPost, now)
 	}
 	return true
 }
@@ -936,6 +981,13 @@ func TestVerifC17(t *testing.T) {
 			}
 		}
 	}
+	// "plain" jobs: the same edits and oracles WITHOUT merging states of equal content -- a record
+	// may carry representation state that its content does not show (what has spilled out of the
+	// inline slots, spare capacity, anything an implementation caches), so every sequence over a
+	// reduced alphabet is executed to the full depth.
+	for _, lim := range [][2]int{{-1, -1}, {3, -1}, {-1, 1}, {6, 3}} {
+		jobs = append(jobs, c17jobName("plain", lim[0], lim[1]))
+	}
 	enum.Jobs(jobs, func(job string) {
 		r := enum.Start("C17", "record")
 		defer r.Finish()
@@ -943,6 +995,10 @@ func TestVerifC17(t *testing.T) {
 		var cl, ll int
 		parts := strings.Split(job, "/")
 		mode = parts[0]
+		plain := mode == "plain"
+		if plain {
+			mode = "direct"
+		}
 		fmt.Sscanf(parts[1], "count=%d", &cl)
 		fmt.Sscanf(parts[2], "len=%d", &ll)
 
@@ -961,13 +1017,21 @@ func TestVerifC17(t *testing.T) {
 			p := NewLoggerProvider(WithProcessor(j.p1), WithProcessor(j.p2), WithAttributeCountLimit(cl), WithAttributeValueLengthLimit(ll))
 			j.lg = p.Logger("c17")
 		} else {
+			keep := map[string]bool{"Add(a=1)": true, "Add(b=1,c=1)": true, "Add(k1..k6)": true, "Add(k6=9)": true, "Add(a=L1)": true,
+				"Set()": true, "Set(a=1,b=L1)": true, "Add(a=4,e=L1,a=5)": true}
 			for i := range ops {
-				j.syms = append(j.syms, c17sym{op: &ops[i], name: ops[i].name})
+				if !plain || keep[ops[i].name] || (ops[i].set && strings.HasPrefix(ops[i].name, "Set(k1=1,")) {
+					j.syms = append(j.syms, c17sym{op: &ops[i], name: ops[i].name})
+				}
 			}
 		}
 		depth := enum.Pick(r, 3, 4)
 		if mode == "direct" {
 			depth = enum.Pick(r, 4, 5)
+		}
+		if plain {
+			r.Bound("plain_symbols", len(j.syms))
+			r.Bound("plain_max_depth", depth)
 		}
 		r.Bound("count_limits", c17countLimits)
 		r.Bound("length_limits", c17lengthLimits)
@@ -1033,7 +1097,7 @@ func TestVerifC17(t *testing.T) {
 					key := c.run()
 					r.Transition()
 					r.Sample(func() any { return c.desc() })
-					if key != "" && r.State(key) && d < depth {
+					if key != "" && (r.State(key) || plain) && d < depth {
 						next = append(next, hist)
 					}
 				}
